@@ -246,23 +246,40 @@ func extFloat32frombits(fr *frame, args []value) value {
 func extGetenv(fr *frame, args []value) value {
 	p := fr.i.path
 	name, ok := args[0].(string)
-	if !ok {
-		// a symbolic name: compare with the variables the harness set; any
-		// other variable is unset in the modelled environment
+	if ok {
+		if v, ok := p.env[name]; ok {
+			return v
+		}
+	}
+	if !ok || len(p.envSym) > 0 {
+		// a symbolic name: compare with the variables the harness set
 		keys := make([]string, 0, len(p.env))
 		for k := range p.env {
 			keys = append(keys, k)
 		}
 		sort.Strings(keys)
-		for _, k := range keys {
-			if p.decide(p.strEq(args[0], k)) {
-				return p.env[k]
+		if !ok {
+			for _, k := range keys {
+				if p.decide(p.strEq(args[0], k)) {
+					return p.env[k]
+				}
 			}
 		}
-		return ""
+		for _, e := range p.envSym {
+			if p.decide(p.strEq(args[0], e.name)) {
+				return e.val
+			}
+		}
 	}
-	if v, ok := p.env[name]; ok {
-		return v
+	// a variable the harness did not list: unset, or - in an adversarial
+	// environment (sv.EnvOther) - possibly holding the given value
+	if p.envOther != "" {
+		c := p.choice(2)
+		p.inputs = append(p.inputs, Input{Name: p.inputName("env.other"), Kind: "choice", N: c})
+		if c == 1 {
+			p.envReads = append(p.envReads, envEntry{name: args[0], val: p.envOther})
+			return p.envOther
+		}
 	}
 	return ""
 }
